@@ -276,6 +276,9 @@ func checkC13(c C13Case) Verdict {
 		return bad(true, "compile panicked: %s", base)
 	}
 	names, srcs := gen.Sources(&c.Prog.Prog)
+	if strings.Contains(base, recompilePrefix) {
+		return bad(true, "%s\n%s", base, showSources(names, srcs))
+	}
 	if repErr != nil {
 		return bad(true, "%v\n%s", repErr, showSources(names, srcs))
 	}
@@ -380,6 +383,8 @@ func genC13(t *rapid.T) C13Case {
 }
 
 func TestC13(t *testing.T) {
+	recompileCheck = true
+	defer func() { recompileCheck = false }()
 	c13rec = newRecorder("C13x")
 	defer c13rec.flush()
 	runProp(t, "C13", genC13, checkC13)
